@@ -67,6 +67,9 @@ typedef struct {
   // For #line directive
   char *display_name;
   int line_delta;
+
+  // How deeply nested in #include directives this file is
+  int include_depth;
 } File;
 
 // Token type
